@@ -81,7 +81,12 @@ class SyncWrappers(Lane):
             def h(ctx, call, *args):
                 calls.append((name, [deref(a) if not z3.is_expr(a) else a for a in args], list(args)))
                 val = result_tok
-                if name in METHODS or name in ('stream.next',):
+                if name == 'stream.next' and m != 'next':
+                    # a wrapper that drives a stream itself (instead of forwarding) must be able to look at the items:
+                    # one entry, then the end of the stream (or an error)
+                    nth = sum(1 for x in calls if x[0] == 'stream.next')
+                    val = (Ok(Some(Tokn('entry'))) if nth == 1 else Ok(NONE())) if d['ok'] else Err(Tokn('async-error'))
+                elif name in METHODS or name in ('stream.next',):
                     val = Ok(result_tok) if d['ok'] else Err(Tokn('async-error'))
                 return ReadyFut(val)
             return h
